@@ -306,15 +306,15 @@ def _check_main(run, P):
     from . import c08, stmtmodel
     classes = stmtmodel.statement_classes(P)
     c08.reads_writes(run, P, classes, "C02.readsets", "C02.readsets")
-    c08._flow(run, P, classes, "C02.readsets")
-    c08._written_whole(run, P, classes, "C02.readsets")
+    run.do(c08._flow, run, P, classes, "C02.readsets")
+    run.do(c08._written_whole, run, P, classes, "C02.readsets")
     from .c01 import _alias
     _alias(run, "C08.mapper", "C02.readsets", lambda: c08._mapper_config(run, P))
 
     f = edges(run, P)
-    _condition(run, P, f)
-    _guard(run, P)
-    _fresh(run, P)
+    run.do(_condition, run, P, f)
+    run.do(_guard, run, P)
+    run.do(_fresh, run, P)
 
 
 def edges(run, P):
